@@ -816,8 +816,11 @@ class C05(Spec):
 class C13(Spec):
     level_text = ('Partial. Proved: C13_policy_cases (the policy function is the only place where the low two bits of the safe mode are '
                   'consulted: html_policy is total over the generated selector and the three non-raw policies return nothing / the replacement '
-                  '/ the escaped text); non-interference of the filter result with surrounding markup is not proved (relational argument over '
-                  'the placeholder protocol); decided by the alignment oracle and full-HTML correspondence at modes 1,2,3 + {0,4,8,12}.')
+                  '/ the escaped text); C13_inline_tag (for every pre / post over letters, digits, blank, full stop and comma and every tag name of '
+                  'letters and digits, spans.render of pre<name>post is pre . F . post with F what the policy makes of the tag: the policies differ '
+                  'at the tag and nowhere else, the surrounding text is rendered identically -- the tag is located with the exact regex semantics, '
+                  'swapped for a placeholder before the quotes pass and restored after it). Non-interference for arbitrary surrounding markup is '
+                  'not proved; decided by the alignment oracle and full-HTML correspondence at modes 1,2,3 + {0,4,8,12}.')
     rule = ('token-soup sources rendered at modes 1,2,3 + {0,4,8,12} with a fresh sentinel replacement; outputs aligned around sentinel '
             'occurrences modulo newlines; non-trivial = source contains an HTML element')
     state_keys = []
